@@ -653,6 +653,18 @@ class Server(utils.EventEmitter):
         '''
         See Bluetooth spec Vol 3, Part F - 3.4.2.1 Exchange MTU Request
         '''
+        if att.is_enhanced_bearer(bearer):
+            # The MTU of an enhanced bearer is that of its L2CAP channel
+            self.send_response(
+                bearer,
+                att.ATT_Error_Response(
+                    request_opcode_in_error=request.op_code,
+                    attribute_handle_in_error=0x0000,
+                    error_code=att.ATT_REQUEST_NOT_SUPPORTED_ERROR,
+                ),
+            )
+            return
+
         self.send_response(
             bearer, att.ATT_Exchange_MTU_Response(server_rx_mtu=self.max_mtu)
         )
